@@ -4,7 +4,9 @@ import (
 	"crypto/sha512"
 	"crypto/subtle"
 	"encoding/json"
+	"fmt"
 	"net/http"
+	"sync"
 	"time"
 
 	"github.com/Cloud-Foundations/keymaster/lib/instrumentedwriter"
@@ -15,6 +17,10 @@ const (
 	bootstrapOtpAuthPath            = "/api/v0/bootstrapOtpAuth"
 	selfServiceBootstrapOtpLifetime = time.Minute * 5
 )
+
+// consumedBootstrapOTPs holds "username:otphash" of every Bootstrap OTP that
+// has been accepted by this process.
+var consumedBootstrapOTPs sync.Map
 
 func (state *RuntimeState) BootstrapOtpAuthHandler(w http.ResponseWriter,
 	r *http.Request) {
@@ -82,8 +88,19 @@ func (state *RuntimeState) BootstrapOtpAuthHandler(w http.ResponseWriter,
 			"Invalid Bootstrap OTP")
 		return
 	}
+	// A Bootstrap OTP is one-time: of several requests presenting it at the
+	// same moment (all of which loaded the profile before any cleared it) only
+	// the first one may proceed.
+	consumedKey := fmt.Sprintf("%s:%x", authData.Username, requiredOtpHash)
+	if _, alreadyConsumed := consumedBootstrapOTPs.LoadOrStore(consumedKey,
+		struct{}{}); alreadyConsumed {
+		state.writeFailureResponse(w, r, http.StatusUnauthorized,
+			"Invalid Bootstrap OTP")
+		return
+	}
 	profile.BootstrapOTP = bootstrapOTPData{}
 	if err := state.SaveUserProfile(authData.Username, profile); err != nil {
+		consumedBootstrapOTPs.Delete(consumedKey)
 		state.logger.Printf("error saving profile randr=%s", err)
 		state.writeFailureResponse(w, r, http.StatusInternalServerError, "")
 		return
